@@ -11,10 +11,10 @@ pub fn prop() -> Prop {
     Prop {
         id: "C12",
         level: "model_checking",
-        rule: "observer bodies H (13: the bound name next to ., ^., ^^., ^^^., another variable, another macro, a selected name) x enclosing contexts X (12: top level, map, filter, fold, sort_by, map_values, pipe stage, pipe-then-map, flat_map, pipes with a stage that returns its input unchanged) x binding forms F (18: set, define, --set variable, --set macro, nested both ways, shadowing an inner/outer/--set binding, unused names, a macro whose body reads a variable bound outside/inside, a macro reading ^) x placement (binding outside X / inside the functional argument) x bound values (4) x position 1..4 among --select options x with/without --split-by x 2 inputs; plus the same expression repeated in four --select positions; non-trivial = the body reads something the binding had to carry over (^, another binding, a selected name) or sits after --split-by / other selections; distinct by construction",
+        rule: "observer bodies H (13: the bound name next to ., ^., ^^., ^^^., another variable, another macro, a selected name) x enclosing contexts X (12: top level, map, filter, fold, sort_by, map_values, pipe stage, pipe-then-map, flat_map, pipes with a stage that returns its input unchanged) x binding forms F (18: set, define, --set variable, --set macro, nested both ways, shadowing an inner/outer/--set binding, unused names, a macro whose body reads a variable bound outside/inside, a macro reading ^) x placement (binding outside X / inside the functional argument) x bound values (4) x position 1..4 among --select options x with/without --split-by x 2 inputs; plus the same expression repeated in four --select positions; plus 3..130 variables and macros in scope at once (nested set/define, or --set given that many times); non-trivial = the body reads something the binding had to carry over (^, another binding, a selected name) or sits after --split-by / other selections; distinct by construction",
         explanation: "each case is one run with two selections: the bound form and the form obtained by substituting the bound value / macro body by hand; both must have the same value (differential, no model needed) and both are also compared with the reference evaluator",
         assumptions: COMMON_ASSUMPTIONS.to_vec(),
-        guards: vec!["parent-read-under-a-binding", "other-variable-survives", "other-macro-survives", "selected-name-survives", "after-split", "shadowing", "macro-body-reads-outer-variable", "pipe-stage-parent", "later-select-sees-same-parents"],
+        guards: vec!["many-bindings-in-scope", "parent-read-under-a-binding", "other-variable-survives", "other-macro-survives", "selected-name-survives", "after-split", "shadowing", "macro-body-reads-outer-variable", "pipe-stage-parent", "later-select-sees-same-parents"],
         budget_s: (100, 1800),
         single_worker: false,
         run,
@@ -316,4 +316,43 @@ fn run(ctx: &mut Ctx) {
         }
     }
     ctx.level_done("same-expression-in-four-select-positions");
+    // size thresholds: many bindings in scope at once (nested set / define, and --set given many times)
+    for k in [3usize, 8, 9, 16, 17, 33, 64, 65, 130] {
+        if !ctx.mine() {
+            continue;
+        }
+        ctx.guard("many-bindings-in-scope");
+        let reads: String = (0..k).map(|i| format!(" :v{i} @m{i}")).collect();
+        let body = format!("(push []{reads} . (len .l))");
+        let expected_reads: String = (0..k).map(|i| format!(" {i} (push [] . {i})")).collect();
+        let substituted = format!("(push []{expected_reads} . (len .l))");
+        // (a) nested in the expression
+        let mut nested = body.clone();
+        for i in (0..k).rev() {
+            nested = format!("(set \"v{i}\" {i} (define \"m{i}\" (push [] . {i}) {nested}))");
+        }
+        // (b) on the command line
+        let mut cli: Vec<String> = Vec::new();
+        for i in 0..k {
+            cli.push(format!("--set=v{i}={i}"));
+            cli.push(format!("--set=@m{i}=(push [] . {i})"));
+        }
+        for (name, mut args, bound) in [("nested", Vec::new(), nested.clone()), ("command-line", cli.clone(), body.clone())] {
+            args.push(format!("--select={bound}=bound"));
+            args.push(format!("--select={substituted}=subst"));
+            args.push(format!("--select=(map .l {bound})=inmap"));
+            args.push(format!("--select=(map .l {substituted})=inmapsubst"));
+            let case = Case::owned(args, INPUTS[0].as_bytes().to_vec());
+            let obs = ctx.run(&case);
+            ctx.case_done();
+            ctx.trace_validated();
+            ctx.nontrivial();
+            let rows = json::parse_rows(&obs.stdout, b"\n").unwrap_or_default();
+            let ok = obs.res.is_ok() && rows.len() == 1 && rows[0].get("bound").is_some() && rows[0].get("bound") == rows[0].get("subst") && rows[0].get("inmap").is_some() && rows[0].get("inmap") == rows[0].get("inmapsubst");
+            if !ok {
+                ctx.violation("bound-form-differs-from-hand-substituted-form", &format!("{k} bindings in scope ({name})"), &[case.clone()], "bound = subst (a value) at top level and inside map".into(), crate::drive::trunc(&obs.brief(), 300));
+            }
+        }
+    }
+    ctx.level_done("many-bindings-in-scope(3..130)");
 }
